@@ -11,6 +11,13 @@ Definition expected_dispatch : list (string * string) :=
   [("B777", "_make_B777"); ("CP29", "_make_CP29_spectral_density"); ("OverdampedBrownian", "_make_overdamped_brownian");
    ("OverdampedBrownian-HighTemperature", "_make_overdamped_brownian_ht"); ("Underdamped", "_make_underdamped");
    ("UnderdampedBrownian", "_make_underdamped_brownian"); ("Value-defined", "_make_value_defined")]%string.
+(* SpectralDensity.__init__: every maker but CP29's receives the parameter set converted to internal units *)
+Definition expected_sd_raw_form : list (string * bool) :=
+  [("B777", false); ("CP29", true); ("OverdampedBrownian", false); ("Underdamped", false); ("UnderdampedBrownian", false);
+   ("Value-defined", false)]%string.
+Definition expected_sd_dispatch : list (string * string) :=
+  [("B777", "_make_B777"); ("CP29", "_make_CP29_spectral_density"); ("OverdampedBrownian", "_make_overdamped_brownian");
+   ("Underdamped", "_make_underdamped"); ("UnderdampedBrownian", "_make_underdamped_brownian"); ("Value-defined", "_make_value_defined")]%string.
 Definition expected_raw_form : list (string * bool) :=
   [("B777", true); ("CP29", true); ("OverdampedBrownian", false); ("OverdampedBrownian-HighTemperature", false);
    ("Underdamped", true); ("UnderdampedBrownian", false); ("Value-defined", false)]%string.
@@ -126,4 +133,44 @@ Section Skel.
   Lemma sd_iadd_self_spec (sdctor : list comp -> option cf) (x : cf) : sdctor (comps x) = Some x ->
     sd_iadd_self sdctor x = Some (mkCf (comps x ++ comps x) (lamb x + lamb x) (temp x) (cutoff x) (data x + data x)).
   Proof. intros H. unfold sd_iadd_self. rewrite H. reflexivity. Qed.
+
+  (* ---- SpectralDensity.__init__: one loop; [step f o c d] is what one iteration does for a component of family f whose
+     maker produced the data d (temperature, maker bookkeeping, append of the converted parameter set) ---- *)
+  Definition sd_ctor_skel (lam0 d0 : R) (fam : comp -> nat) (step : nat -> cf -> comp -> R -> cf) (cs : list comp) : option cf :=
+    Some (fold_left (fun o c => step (fam c) o c (gen (fam c) c)) cs (mkCf [] lam0 None 0%Q d0)).
+  Definition tied (l : list nat) (cs : list comp) : Prop := Forall (fun c => In (ftype c) l) cs.
+  Lemma sd_ctor_skel_is_model l lam0 d0 fam step :
+    lam0 = 0 -> d0 = 0 -> (forall c, fam c = ftype c) ->
+    (forall f o c d, In f l -> step f o c d = mkCf (comps o ++ [c]) (lamb o + clam c) (Some (ctemp c)) (cutoff o) (data o + d)) ->
+    forall cs, tied l cs -> sd_ctor_skel lam0 d0 fam step cs = sd_ctor gen cs.
+  Proof.
+    intros -> -> Hfam Hstep cs Ht. unfold sd_ctor_skel, sd_ctor. f_equal.
+    generalize (mkCf (R:=R) [] 0 None 0%Q 0) as o.
+    induction Ht as [|c cs' Hc Ht IH]; intros o; cbn [fold_left]; [reflexivity|].
+    rewrite Hfam, (Hstep _ _ _ _ Hc). apply IH.
+  Qed.
+
+  (* what the constructor of a spectral density builds: components in order, sums of reorganisation energies and data *)
+  Definition sumf (f : comp -> R) (cs : list comp) : R := fold_right (fun c a => f c + a) 0 cs.
+  Definition sdfold (cs : list comp) (o : cf) : cf := fold_left (fun o c => sd_make_one gen (ftype c) o c) cs o.
+  Add Ring RrS : (rth R).
+  Lemma sumf_cons f c cs : sumf f (c :: cs) = f c + sumf f cs.
+  Proof. reflexivity. Qed.
+  Lemma sd_loop_spec cs : forall o : cf,
+    comps (sdfold cs o) = comps o ++ cs /\ lamb (sdfold cs o) = lamb o + sumf (@clam R) cs /\
+    data (sdfold cs o) = data o + sumf (fun c => gen (ftype c) c) cs.
+  Proof.
+    induction cs as [|c cs IH]; intros o.
+    - unfold sdfold, sumf; cbn [fold_left fold_right]. rewrite app_nil_r. split; [reflexivity|split; ring].
+    - change (sdfold (c :: cs) o) with (sdfold cs (sd_make_one gen (ftype c) o c)).
+      destruct (IH (sd_make_one gen (ftype c) o c)) as (Hc & Hl & Hd). rewrite Hc, Hl, Hd, !sumf_cons.
+      unfold sd_make_one; cbn [comps lamb data]. rewrite <- app_assoc. split; [reflexivity|split; ring].
+  Qed.
+  Lemma sd_ctor_spec cs : exists r, sd_ctor gen cs = Some r /\
+    comps r = cs /\ lamb r = sumf (@clam R) cs /\ data r = sumf (fun c => gen (ftype c) c) cs.
+  Proof.
+    exists (sdfold cs (mkCf [] 0 None 0%Q 0)). split; [reflexivity|].
+    destruct (sd_loop_spec cs (mkCf [] 0 None 0%Q 0)) as (Hc & Hl & Hd).
+    rewrite Hc, Hl, Hd. cbn [comps lamb data app]. split; [reflexivity|split; ring].
+  Qed.
 End Skel.
